@@ -9,8 +9,10 @@ import (
 	"fmt"
 	"math/rand"
 	"os"
+	"runtime/debug"
 	"sort"
 	"strconv"
+	"strings"
 	"sync"
 
 	"github.com/urfave/cli/v2"
@@ -79,7 +81,7 @@ func (e *env) parallelCases(fn func(idx int, raw json.RawMessage, rng *rand.Rand
 			defer wg.Done()
 			rng := rand.New(rand.NewSource(seed))
 			for i := range next {
-				if err := fn(i, all[i], rng); err != nil {
+				if err := e.guarded(func() error { return fn(i, all[i], rng) }); err != nil {
 					e.mu.Lock()
 					if firstErr == nil {
 						firstErr = err
@@ -92,6 +94,22 @@ func (e *env) parallelCases(fn func(idx int, raw json.RawMessage, rng *rand.Rand
 	}
 	wg.Wait()
 	return firstErr
+}
+
+// guarded runs fn; a panic from the code under test becomes a mismatch (see runMode)
+func (e *env) guarded(fn func() error) (err error) {
+	defer func() {
+		if p := recover(); p != nil {
+			stack := string(debug.Stack())
+			site := panicSite(stack)
+			if site == "" || strings.Contains(site, "/internal/verifdrv.") {
+				err = fmt.Errorf("panic in the driver: %v\n%s", p, stack)
+				return
+			}
+			e.mismatch("panic-in-code-under-test", site, fmt.Sprintf("the code under test panics: %v at %s", p, site), map[string]interface{}{"stack": stack})
+		}
+	}()
+	return fn()
 }
 
 // count adds to the summary counters under the lock
@@ -204,6 +222,42 @@ func (e *env) eachCase(fn func(raw json.RawMessage) error) error {
 
 var modes = map[string]func(e *env) error{}
 
+// panicSite returns the first frame of the panicking goroutine's stack that is not in the runtime
+func panicSite(stack string) string {
+	lines := strings.Split(stack, "\n")
+	seenPanic := false
+	for i := 0; i+1 < len(lines); i++ {
+		l := lines[i]
+		if strings.HasPrefix(l, "panic(") {
+			seenPanic = true
+			continue
+		}
+		if !seenPanic || strings.HasPrefix(l, "\t") || strings.HasPrefix(l, "runtime.") || strings.HasPrefix(l, "runtime/") {
+			continue
+		}
+		return l + " " + strings.TrimSpace(lines[i+1])
+	}
+	return ""
+}
+
+// runMode runs a mode; a panic that originates in the code under test (a direct call of the driver into the
+// repository, outside runInProc's own recover) is a disagreement observed on the real code, not a
+// failure of the driver: it is recorded as a mismatch.  A panic inside the driver itself stays an error.
+func runMode(e *env, fn func(e *env) error) (err error) {
+	defer func() {
+		if p := recover(); p != nil {
+			stack := string(debug.Stack())
+			site := panicSite(stack)
+			if site == "" || strings.Contains(site, "/internal/verifdrv.") {
+				err = fmt.Errorf("panic in the driver: %v\n%s", p, stack)
+				return
+			}
+			e.mismatch("panic-in-code-under-test", site, fmt.Sprintf("the code under test panics: %v at %s", p, site), map[string]interface{}{"stack": stack})
+		}
+	}()
+	return fn(e)
+}
+
 // Main dispatches on VERIF_MODE; returns the process exit status (0 unless the driver itself failed)
 func Main(mode string, app AppFn) int {
 	getApp = app
@@ -244,7 +298,7 @@ func Main(mode string, app AppFn) int {
 		fmt.Fprintln(os.Stderr, "unknown VERIF_MODE", mode)
 		return 3
 	}
-	if err := fn(e); err != nil {
+	if err := runMode(e, fn); err != nil {
 		fmt.Fprintln(os.Stderr, "driver error:", err)
 		return 3
 	}
